@@ -250,8 +250,10 @@ M("C19", "opcode-caches-width", CPU, "        value_size = guess_value_size(valu
 M("C19", "thaw-shared-bus", CG, "    attributes = node.args\n\n    resolver.bus.map(", "    attributes = node.args\n    resolver.get_bus().editable = True\n\n    resolver.bus.map(", "C19.R3")
 M("C19", "rom-type-on-class", PROG, "            self.resolver.rom_type = address_mapping[mapping]", "            Resolver.rom_type = address_mapping[mapping]", "C19.R2")
 M("C19", "alias-of-bus-mapping-mutated", SYM, "            bus = BUS_MAPPING[self.rom_type]\n", "            bus = BUS_MAPPING[self.rom_type]\n            bus.internal_id += 1\n", "C19.R2")
-M("C19", "lru-cache-on-eval-number", EXPRF, "def eval_number(number: str) -> int:", "@functools.lru_cache(maxsize=None)\ndef eval_number(number: str) -> int:", "C19.R2",
-  edits=[(EXPRF, "def eval_number(number: str) -> int:", "@functools.lru_cache(maxsize=None)\ndef eval_number(number: str) -> int:"), (EXPRF, "import ctypes\n", "import ctypes\nimport functools\n")])
+M("C19", "lru-cache-on-eval-expression", EXPRF, "def eval_expression(expression: ExpressionAstNode, resolver: Resolver) -> int:", "@functools.lru_cache(maxsize=None)\ndef eval_expression(expression: ExpressionAstNode, resolver: Resolver) -> int:", "C19.R2",
+  edits=[(EXPRF, "def eval_expression(expression: ExpressionAstNode, resolver: Resolver) -> int:", "@functools.lru_cache(maxsize=None)\ndef eval_expression(expression: ExpressionAstNode, resolver: Resolver) -> int:"), (EXPRF, "import ctypes\n", "import ctypes\nimport functools\n")])
+M("C06", "lru-cache-on-eval-expression", EXPRF, "def eval_expression(expression: ExpressionAstNode, resolver: Resolver) -> int:", "@functools.lru_cache(maxsize=None)\ndef eval_expression(expression: ExpressionAstNode, resolver: Resolver) -> int:", "C06.RM",
+  edits=[(EXPRF, "def eval_expression(expression: ExpressionAstNode, resolver: Resolver) -> int:", "@functools.lru_cache(maxsize=None)\ndef eval_expression(expression: ExpressionAstNode, resolver: Resolver) -> int:"), (EXPRF, "import ctypes\n", "import ctypes\nimport functools\n")])
 M("C19", "local-dict-neutral", CG, "    macro_definitions: MacroDefinitions = {}\n    return _code_gen", "    macro_definitions: MacroDefinitions = {}\n    macro_definitions.clear()\n    return _code_gen", neutral=True)
 
 # ------------------------------------------------------------------ C15
@@ -366,3 +368,5 @@ M("C15", "table-line-regex-nested-repeat", "script/__init__.py", '(?P<byte>[0-9a
 M("C15", "table-line-regex-grouped-bytes-neutral", "script/__init__.py", '(?P<byte>[0-9a-fA-F]+)(?::', '(?P<byte>[0-9a-fA-F]+(?: [0-9a-fA-F]+)*)(?::', neutral=True)
 M("C05", "same-bank-test-on-next-address", CPU, "            delta = physical_destination - pc\n", "            if (resolver.reloc_address + 2).logical_value >> 16 != value >> 16:\n                raise RuntimeError(\"not in the current bank\")\n            delta = physical_destination - pc\n", "C05.R3")
 M("C09", "limit-on-scope-log", CG, "    macro_def: MacroAstNode = macro_definitions[node.name]\n", "    if len(resolver.scopes) > 200:\n        raise NodeError(\"nested too deeply\", file_info)\n    macro_def: MacroAstNode = macro_definitions[node.name]\n", "C09.R7")
+M("C06", "complement-mask-loop-strict", EXPRF, "                if v1.bit_length() <= 8:\n                    r = ctypes.c_uint8(~v1).value\n                elif v1.bit_length() <= 16:\n                    r = ctypes.c_uint16(~v1).value\n                elif v1.bit_length() <= 32:\n                    r = ctypes.c_uint32(~v1).value\n                else:\n", "                for mask in (0xFF, 0xFFFF, 0xFFFFFFFF):\n                    if abs(v1) < mask:\n                        r = ~v1 & mask\n                        break\n                else:\n", "C06.R3")
+M("C06", "complement-mask-loop-neutral", EXPRF, "                if v1.bit_length() <= 8:\n                    r = ctypes.c_uint8(~v1).value\n                elif v1.bit_length() <= 16:\n                    r = ctypes.c_uint16(~v1).value\n                elif v1.bit_length() <= 32:\n                    r = ctypes.c_uint32(~v1).value\n                else:\n", "                for mask in (0xFF, 0xFFFF, 0xFFFFFFFF):\n                    if abs(v1) <= mask:\n                        r = ~v1 & mask\n                        break\n                else:\n", neutral=True)
